@@ -624,7 +624,15 @@ async fn run_script(case: &ScriptCase) -> CaseOut {
             rig.settle().await;
         }
         if let Some((kind, every)) = case.starve {
-            starved_read(&mut rig, &mut out, kind, every.max(1) as u64, seq, last_unsol.map(|x| x.0)).await;
+            starved_read(
+                &mut rig,
+                &mut out,
+                kind,
+                every.max(1) as u64,
+                seq,
+                last_unsol.map(|x| x.0),
+            )
+            .await;
         }
         // let every confirm wait expire, then ask
         for _ in 0..3 {
